@@ -623,8 +623,17 @@ impl Client {
             .writer
             .lock()
             .map_err(|_| poisoned_lock_error("client writer"))?;
-        write_message(&mut *writer, msg)?;
-        writer.flush()?;
+        // A failed write (for instance an expired write timeout) may have put part
+        // of the frame on the wire. No further frame may follow it, so fail the
+        // connection: the reader then fails every call still in flight.
+        if let Err(err) = write_message(&mut *writer, msg) {
+            let _ = writer.get_ref().shutdown(Shutdown::Both);
+            return Err(err);
+        }
+        if let Err(err) = writer.flush() {
+            let _ = writer.get_ref().shutdown(Shutdown::Both);
+            return Err(err.into());
+        }
         Ok(())
     }
 
